@@ -93,9 +93,7 @@ def gen(c):
             if want(t):
                 return k, t
             k += 1
-    for ln in ((1,) if c.quick else (1, 2)):
-        if ln == 2 and c.quick:
-            continue
+    for ln in (1,):          # (a 2-byte plaintext would need about 2^16 reference scalar multiplications to find such a nonce)
         k0, _ = find_k(lambda t: not any(t), ln)
         for iface, extra in (("der", {}), ("do", {}), ("ctx", {"chunks": "0"}), ("fixlen", {"psize": 69}), ("pre", {"slot": 0})):
             add(dict({"op": "encrypt", "iface": iface, "pub": pub, "msg": rb(ln), "seed": 950 + len(lines), "first": k0.to_bytes(32, "little")}, **extra),
